@@ -21,34 +21,34 @@ class remove_cand_list_profile:
 
     def raises_ValueError(removed, profile_or_ballots, condense, leave_zero_weight_ballots):
         # the candidate list of the input is duplicate-free (validated at construction), hence so is its filtered copy
-        return not distinct(keep_cands(profile_or_ballots.candidates, len(profile_or_ballots.candidates), removed),
-                            len(keep_cands(profile_or_ballots.candidates, len(profile_or_ballots.candidates), removed))) \
-            and len(keep_cands(profile_or_ballots.candidates, len(profile_or_ballots.candidates), removed)) > 0
+        return not distinct(keep_cands(profile_or_ballots.candidates, len(profile_or_ballots.candidates), frozenset(removed)),
+                            len(keep_cands(profile_or_ballots.candidates, len(profile_or_ballots.candidates), frozenset(removed)))) \
+            and len(keep_cands(profile_or_ballots.candidates, len(profile_or_ballots.candidates), frozenset(removed))) > 0
 
     def ensures(removed, profile_or_ballots, condense, leave_zero_weight_ballots, result, k):
-        return (implies(len(keep_cands(profile_or_ballots.candidates, len(profile_or_ballots.candidates), removed)) > 0,
-                        result.candidates == keep_cands(profile_or_ballots.candidates, len(profile_or_ballots.candidates), removed))
+        return (implies(len(keep_cands(profile_or_ballots.candidates, len(profile_or_ballots.candidates), frozenset(removed))) > 0,
+                        result.candidates == keep_cands(profile_or_ballots.candidates, len(profile_or_ballots.candidates), frozenset(removed)))
                 and wrank(result.ballots, len(result.ballots), k)
-                == wrank(rc_prefix(profile_or_ballots.ballots, len(profile_or_ballots.ballots), removed), len(profile_or_ballots.ballots), k))
+                == wrank(rc_prefix(profile_or_ballots.ballots, len(profile_or_ballots.ballots), frozenset(removed)), len(profile_or_ballots.ballots), k))
 
     def invariant_0(removed, ballots, scrubbed_ballots, _k):
-        return len(scrubbed_ballots) == len(ballots) and scrubbed_ballots[:_k] == list(rc_prefix(ballots, _k, removed))
+        return len(scrubbed_ballots) == len(ballots) and scrubbed_ballots[:_k] == list(rc_prefix(ballots, _k, frozenset(removed)))
 
     def invariant_1(removed, ballot, new_ranking, _k):
-        return new_ranking == list(scrubR(ballot.ranking, _k, removed))
+        return new_ranking == list(scrubR(ballot.ranking, _k, frozenset(removed)))
 
     def comp_1(scrubbed_ballots):
         return keep_positive(scrubbed_ballots, len(scrubbed_ballots))
 
     def comp_2(profile_or_ballots, removed):
-        return keep_cands(profile_or_ballots.candidates, len(profile_or_ballots.candidates), removed)
+        return keep_cands(profile_or_ballots.candidates, len(profile_or_ballots.candidates), frozenset(removed))
 
     def comp_3(profile_or_ballots, removed):
-        return keep_cands(profile_or_ballots.candidates, len(profile_or_ballots.candidates), removed)
+        return keep_cands(profile_or_ballots.candidates, len(profile_or_ballots.candidates), frozenset(removed))
 
     def hint_return(removed, ballots, scrubbed_ballots, k):
-        return (wrank_keep_positive(scrubbed_ballots, len(scrubbed_ballots), k) and rc_prefix_len(ballots, len(ballots), removed)
-                and rc_prefix_nonneg(ballots, len(ballots), removed))
+        return (wrank_keep_positive(scrubbed_ballots, len(scrubbed_ballots), k) and rc_prefix_len(ballots, len(ballots), frozenset(removed))
+                and rc_prefix_nonneg(ballots, len(ballots), frozenset(removed)))
 
 
 @contract("utils.py", "remove_cand", props=("C12", "C03"), when=("Str", "Profile"), unfold=4)
@@ -67,31 +67,31 @@ class remove_cand_str_profile:
 
     def raises_ValueError(removed, profile_or_ballots, condense, leave_zero_weight_ballots):
         # the candidate list of the input is duplicate-free (validated at construction), hence so is its filtered copy
-        return not distinct(keep_cands(profile_or_ballots.candidates, len(profile_or_ballots.candidates), [removed]),
-                            len(keep_cands(profile_or_ballots.candidates, len(profile_or_ballots.candidates), [removed]))) \
-            and len(keep_cands(profile_or_ballots.candidates, len(profile_or_ballots.candidates), [removed])) > 0
+        return not distinct(keep_cands(profile_or_ballots.candidates, len(profile_or_ballots.candidates), frozenset([removed])),
+                            len(keep_cands(profile_or_ballots.candidates, len(profile_or_ballots.candidates), frozenset([removed])))) \
+            and len(keep_cands(profile_or_ballots.candidates, len(profile_or_ballots.candidates), frozenset([removed]))) > 0
 
     def ensures(removed, profile_or_ballots, condense, leave_zero_weight_ballots, result, k):
-        return (implies(len(keep_cands(profile_or_ballots.candidates, len(profile_or_ballots.candidates), [removed])) > 0,
-                        result.candidates == keep_cands(profile_or_ballots.candidates, len(profile_or_ballots.candidates), [removed]))
+        return (implies(len(keep_cands(profile_or_ballots.candidates, len(profile_or_ballots.candidates), frozenset([removed]))) > 0,
+                        result.candidates == keep_cands(profile_or_ballots.candidates, len(profile_or_ballots.candidates), frozenset([removed])))
                 and wrank(result.ballots, len(result.ballots), k)
-                == wrank(rc_prefix(profile_or_ballots.ballots, len(profile_or_ballots.ballots), [removed]), len(profile_or_ballots.ballots), k))
+                == wrank(rc_prefix(profile_or_ballots.ballots, len(profile_or_ballots.ballots), frozenset([removed])), len(profile_or_ballots.ballots), k))
 
     def invariant_0(removed, ballots, scrubbed_ballots, _k):
-        return len(scrubbed_ballots) == len(ballots) and scrubbed_ballots[:_k] == list(rc_prefix(ballots, _k, removed))
+        return len(scrubbed_ballots) == len(ballots) and scrubbed_ballots[:_k] == list(rc_prefix(ballots, _k, frozenset(removed)))
 
     def invariant_1(removed, ballot, new_ranking, _k):
-        return new_ranking == list(scrubR(ballot.ranking, _k, removed))
+        return new_ranking == list(scrubR(ballot.ranking, _k, frozenset(removed)))
 
     def comp_1(scrubbed_ballots):
         return keep_positive(scrubbed_ballots, len(scrubbed_ballots))
 
     def comp_2(profile_or_ballots, removed):
-        return keep_cands(profile_or_ballots.candidates, len(profile_or_ballots.candidates), removed)
+        return keep_cands(profile_or_ballots.candidates, len(profile_or_ballots.candidates), frozenset(removed))
 
     def comp_3(profile_or_ballots, removed):
-        return keep_cands(profile_or_ballots.candidates, len(profile_or_ballots.candidates), removed)
+        return keep_cands(profile_or_ballots.candidates, len(profile_or_ballots.candidates), frozenset(removed))
 
     def hint_return(removed, ballots, scrubbed_ballots, k):
-        return (wrank_keep_positive(scrubbed_ballots, len(scrubbed_ballots), k) and rc_prefix_len(ballots, len(ballots), removed)
-                and rc_prefix_nonneg(ballots, len(ballots), removed))
+        return (wrank_keep_positive(scrubbed_ballots, len(scrubbed_ballots), k) and rc_prefix_len(ballots, len(ballots), frozenset(removed))
+                and rc_prefix_nonneg(ballots, len(ballots), frozenset(removed)))
